@@ -330,8 +330,8 @@ func init() {
 	stub := []string{"clock (synctest fake clock)", "sync.Mutex (simrt equivalents)", "the connection loop is not in this family (it is exercised by C14/C16)"}
 	Register(&Prop{ID: "C18", Level: "exploration",
 		Rule: "one case = a timing sequence of 10-70 AllowRequest/AllowOperation events over 1-3 IPs, 1-3 connections and all four operation types on the fake clock, with gaps drawn from {0, a third of a token, just over k tokens, milliseconds, seconds, hours (longer than CleanupInterval)} and rates/bursts incl. zero and the fractional mount rate; oracles: per limiter instance admitted <= burst + rate*elapsed at every prefix (reference buckets), a request inside all limits is admitted when nothing was refused before, and the same sequence under CleanupInterval 1 ms and 24 h yields identical decisions; non-trivial = at least one event; distinct by event digest",
-		Gen: genC18, New: func() any { return &LimScn{} }, Run: runLimiter, Shrink: shrinkLim, Real: real, Stubbed: stub})
+		Gen:  genC18, New: func() any { return &LimScn{} }, Run: runLimiter, Shrink: shrinkLim, Real: real, Stubbed: stub})
 	Register(&Prop{ID: "C19", Level: "exploration",
 		Rule: "one case = 20-100 events: an abusive client sending far beyond its per-IP/per-connection limit interleaved on the fake clock with compliant clients spaced seconds apart, under small global budgets; oracle: with reference buckets charged only by admitted requests, a compliant request inside its own limits is admitted whenever the admitted total leaves a token in the global budget; non-trivial = at least one event; distinct by event digest",
-		Gen: genC19, New: func() any { return &LimScn{} }, Run: runLimiter, Shrink: shrinkLim, Real: real, Stubbed: stub})
+		Gen:  genC19, New: func() any { return &LimScn{} }, Run: runLimiter, Shrink: shrinkLim, Real: real, Stubbed: stub})
 }
